@@ -1,7 +1,7 @@
 SPECIFICATION Spec
 CONSTANTS
   Fuel = 60000
-  Fams = {"bigarr", "bigstruct", "arr3", "zerolen", "viewview", "iterptr", "looplocal", "wordcopy", "deepblocks", "longexpr"}
+  Fams = {"bigarr", "bigstruct", "arr3", "zerolen", "viewview", "iterptr", "looplocal", "wordcopy", "deepblocks", "longexpr", "permlit"}
   BigTypes = {"i32"}
   Big = TRUE
 INVARIANTS Sane EmitCase
